@@ -119,8 +119,28 @@ def module_resolver(idx: Index, relpath: str):
 
     def resolve(name: str):
         r = idx.resolve_name(mod, name)
-        from ..index import FunctionInfo
+        from ..index import ClassInfo, FunctionInfo
+        from ..consteval import ClassVal
         if isinstance(r, FunctionInfo) and not r.module.external:
-            return FuncVal(r.node)
+            return FuncVal(r.node, home=r.module.relpath)
+        if isinstance(r, ClassInfo) and not r.module.external:
+            methods, props, homes = {}, {}, {}
+            for c in reversed(idx.mro(r)):
+                if c.module.external:
+                    continue
+                for mn, m in c.methods.items():
+                    homes[mn] = c.module.relpath
+                    if m.is_property():
+                        props[mn] = m.node
+                    else:
+                        methods[mn] = m.node
+            return ClassVal(r.name, methods, props, home=r.module.relpath, method_home=homes)
         return None
     return resolve
+
+
+def make_folder(idx: Index, relpath: str, **kw) -> Folder:
+    """Folder whose names resolve in `relpath`, and whose callees resolve names in their own modules"""
+    fo = Folder(resolver=module_resolver(idx, relpath), resolver_factory=lambda rel: module_resolver(idx, rel), **kw)
+    fo.env["np.pi"] = sp.pi
+    return fo
